@@ -42,6 +42,15 @@ theorem model_mismatch_rejected_szx (inflate : Bytes → Option Bytes) (f : Byte
     exact hmis
   simp only [this, if_true]
 
+/-- **C14, `model_mismatch_rejected`** (repaired code): both loaders refuse a file for the other model. -/
+theorem model_mismatch_rejected (inflate : Bytes → Option Bytes) (f : Bytes) (r : Machine) :
+    (sna48Size ≤ f.length → decide (sna48Size < f.length) ≠ (r.kind == .k128) →
+      snaLoad Fixes.all f r = .error .machineNotSupported) ∧
+    (8 ≤ f.length → f.take 4 = magicZXST → (f.getD 6 0).toNat ≤ 2 →
+      decide (2 ≤ (f.getD 6 0).toNat) ≠ (r.kind == .k128) →
+      szxLoad Fixes.all inflate f r = .error .machineNotSupported) :=
+  ⟨model_mismatch_rejected_sna f r, model_mismatch_rejected_szx inflate f r⟩
+
 /-- **Defect #6 is real (128K file, 48K machine).** The code as it is panics: after the header it
 asks for RAM page 5 of a machine that has three pages. -/
 theorem code_panics_on_128k_sna_in_48k (f : Bytes) (r : Machine) (hk : r.kind = .k48)
